@@ -80,7 +80,8 @@ def gen(rng, tier):
     if r < 0.75:
       consts.append({'name': rng.choice(CONST_POOL), 'kind': 'ok'})
     elif r < 0.88:
-      consts.append({'name': rng.choice(['a b', '1x', '', 'x..y', 'a/b']),
+      consts.append({'name': rng.choice(['a b', '1x', '', 'x..y', 'a/b',
+                                         'nl.NAME\n']),
                      'kind': 'invalid'})
     else:
       consts.append({'name': rng.choice(CONST_POOL), 'kind': 'ok',
